@@ -438,3 +438,40 @@ pub fn base64(data: &[u8]) -> String {
     }
     out
 }
+
+
+// ---------------------------------------------------------------------------------------------
+// One long-lived server per harness thread. Starting a server per case costs a listening port per
+// case, and ports whose connections are in TIME_WAIT cannot be bound again for a minute: tens of
+// thousands of cases in a minute exhaust the ephemeral range ("Address already in use"). A thread
+// runs its cases one after another, so one server whose handler is swapped per case serves them all.
+// ---------------------------------------------------------------------------------------------
+
+thread_local! {
+    static THREAD_SERVER: std::cell::RefCell<Option<(std::rc::Rc<Server>, Arc<Mutex<Handler>>)>> = const { std::cell::RefCell::new(None) };
+}
+
+/// The calling thread's server, answering with `handler` from now on; records of earlier cases and
+/// scripted upload aborts are cleared.
+pub fn thread_server(handler: Handler) -> std::io::Result<std::rc::Rc<Server>> {
+    THREAD_SERVER.with(|ts| {
+        let mut ts = ts.borrow_mut();
+        if ts.is_none() {
+            let slot: Arc<Mutex<Handler>> = Arc::new(Mutex::new(handler.clone()));
+            let s2 = slot.clone();
+            let server = Server::start(
+                Arc::new(move |r: &Recorded| {
+                    let h = s2.lock().unwrap().clone();
+                    h(r)
+                }),
+                None,
+            )?;
+            *ts = Some((std::rc::Rc::new(server), slot));
+        }
+        let (server, slot) = ts.as_ref().unwrap();
+        *slot.lock().unwrap() = handler;
+        let _ = server.take_records();
+        server.abort_uploads.lock().unwrap().clear();
+        Ok(server.clone())
+    })
+}
